@@ -54,6 +54,18 @@ template <class T, class V> static inline T verif_aaf(T volatile* p, V v)
   return r;
 }
 #define __sync_add_and_fetch(p, v) verif_aaf(p, v)
+// the same counter updates written with the __sync_* / __atomic_* read-modify-write builtins of the other spellings
+// (value after, value before): still one atomic step bracketed by two scheduling points and one trace event.
+// An Atomic.hpp that counts by other means gives no scheduling points: a `go` run then executes the threads one
+// after the other, its trace has no counter events and the model driver reports it as not replayable
+// (a break of the correspondence, not of the property); the free-running cases keep their end-state oracle.
+#define __sync_sub_and_fetch(p, v) verif_aaf(p, -(v))
+#define __sync_fetch_and_add(p, v) (verif_aaf(p, v) - (v))
+#define __sync_fetch_and_sub(p, v) (verif_aaf(p, -(v)) + (v))
+#define __atomic_add_fetch(p, v, order) verif_aaf(p, v)
+#define __atomic_sub_fetch(p, v, order) verif_aaf(p, -(v))
+#define __atomic_fetch_add(p, v, order) (verif_aaf(p, v) - (v))
+#define __atomic_fetch_sub(p, v, order) (verif_aaf(p, -(v)) + (v))
 
 #define private public
 #define protected public
@@ -63,6 +75,13 @@ template <class T, class V> static inline T verif_aaf(T volatile* p, V v)
 #include <nstd/Document/Xml.hpp>
 #undef private
 #undef protected
+#undef __sync_sub_and_fetch
+#undef __sync_fetch_and_add
+#undef __sync_fetch_and_sub
+#undef __atomic_add_fetch
+#undef __atomic_sub_fetch
+#undef __atomic_fetch_add
+#undef __atomic_fetch_sub
 
 extern "C" int __sanitizer_install_malloc_and_free_hooks(void (*malloc_hook)(const volatile void*, size_t),
                                                          void (*free_hook)(const volatile void*));
